@@ -58,7 +58,7 @@ Print Assumptions C05_skip_warnings.
    include) in source order: the sections are exactly one per such heading, in source order, each under
    the section of the heading that the specification names for the level sequence (or the document); the
    warnings are exactly one per upward skip of more than one level.  Headings below containers do not
-   appear here at all (they are rubrics, C05_nested_headings_are_rubrics). *)
+   appear here at all (they are rubrics, C05_nested_headings_are_rubrics_partial). *)
 Theorem C05_document_sections : forall ts, forallb tags_ok ts = true -> forallb no_titles ts = true ->
   exists s, render_document ts = Ok s /\
     secs (log s) = flat_map (exp_sec (doc_headings_list 0 0 ts)) (seq 0 (length (doc_headings_list 0 0 ts))) /\
@@ -69,15 +69,29 @@ Print Assumptions C05_document_sections.
 (* A container (block quote, list item, ...) rendered in any state: whatever it contains (headings at
    any depth, includes, directives that do not ask for titles), no section and no header warning is
    created, the level map, current node, heading offset and temp root are as before, and every heading
-   inside became a rubric that records its level. *)
-Theorem C05_nested_headings_are_rubrics : forall ts s, troot_fresh s -> forallb no_titles ts = true ->
+   inside became a rubric that records its level.
+   PARTIAL: guarded by [no_titles] - a directive that nested-parses its body with match_titles=True
+   (Sphinx's `only`) does open sections, see C05_nested_headings_are_rubrics_refuted. *)
+Theorem C05_nested_headings_are_rubrics_partial : forall ts s, troot_fresh s -> forallb no_titles ts = true ->
   exists s', render (TContainer ts) s = Ok s' /\
     lvl s' = lvl s /\ cur s' = cur s /\ hoff s' = hoff s /\ troot s' = troot s /\
     secs (log s') = secs (log s) /\ warns (log s') = warns (log s) /\
     rubs (log s') = rubs (log s) ++ number (nh s) (flat_map (heading_levels (hoff s)) ts) /\
     nh s' = nh s + length (flat_map (heading_levels (hoff s)) ts).
 Proof. exact nested_headings_are_rubrics. Qed.
-Print Assumptions C05_nested_headings_are_rubrics.
+Print Assumptions C05_nested_headings_are_rubrics_partial.
+
+(* "# h0", then a block quote holding a match_titles directive with "## h1" in its body: h1 becomes a
+   section, and it is attached to the section of h0 - outside the directive and the quote *)
+Theorem C05_nested_headings_are_rubrics_refuted : exists ts s s',
+  troot_fresh s /\ render (TContainer ts) s = Ok s' /\ secs (log s') <> secs (log s).
+Proof.
+  exists [TDirective true [THeading 2]].
+  destruct (render (THeading 1) init) as [s|] eqn:E; [|discriminate].
+  exists s. vm_compute in E. inversion E; subst. eexists. split; [intros r Hr; discriminate|].
+  split; [vm_compute; reflexivity|]. vm_compute. discriminate.
+Qed.
+Print Assumptions C05_nested_headings_are_rubrics_refuted.
 
 (* the same for the body of a directive such as an admonition (nested_parse without match_titles) *)
 Theorem C05_directive_headings_are_rubrics : forall ts s, troot_fresh s -> forallb no_titles ts = true ->
